@@ -202,6 +202,25 @@ func RunReplay(path string) int {
 		fmt.Println("ERROR", err)
 		return 2
 	}
+	if k, _ := rep["kind"].(string); k == "bounded" {
+		// a mismatch found by a bounded stand-in: the failing inputs are listed, the stand-in is re-run
+		fmt.Printf("bounded stand-in: %v\nfailing inputs:\n", rep["obligation"])
+		if l, ok := rep["failing_inputs"].([]interface{}); ok {
+			for _, x := range l {
+				fmt.Printf("  %v\n", x)
+			}
+		}
+		rerun, _ := rep["rerun"].(string)
+		fmt.Println("re-running:", rerun)
+		cmd := exec.Command("/bin/sh", "-c", rerun)
+		cmd.Dir = "/verif"
+		out, err := cmd.CombinedOutput()
+		fmt.Println(lastLines(string(out), 15))
+		if err != nil {
+			return 1
+		}
+		return 0
+	}
 	fmt.Printf("obligation: %v\nclause: %v\nwhere: %v\nsolver: %v (%v)\n", rep["obligation"], rep["clause"], rep["where"], rep["solver"], rep["solver_status"])
 	src, _ := rep["test_source"].(string)
 	dir, _ := rep["package_dir"].(string)
